@@ -63,7 +63,7 @@ func genC11(g *Gen, tier string, idx int) *wire.Scenario {
 		wire.BindSpec{Keymap: "vi-command", Seq: wire.Bytes("\x1dp"), Action: "verif-panic"})
 	x := c11X{}
 	// buffer shape
-	x.Shape = Pick(g, []string{"empty", "short", "wrapped", "multiline", "exact", "menu", "isearch", "vi-command", "vi-visual", "vi-opp", "hint"})
+	x.Shape = Pick(g, []string{"empty", "short", "wrapped", "multiline", "exact", "menu", "isearch", "vi-command", "vi-visual", "vi-opp", "hint", "long-menu"})
 	typ := func(s string) {
 		for _, r := range s {
 			sc.Script = append(sc.Script, tok(string(r), "self-insert"))
@@ -97,6 +97,23 @@ func genC11(g *Gen, tier string, idx int) *wire.Scenario {
 	case "menu":
 		typ("x ")
 		sc.Script = append(sc.Script, tok("\t", "complete"), tok("\t", "menu-complete"))
+	case "long-menu":
+		// more candidates than there are rows below the line (the menu is cropped), the selection moved
+		// to the far end of the list
+		env.Comp = &wire.CompSpec{}
+		for i := 0; i < g.Range(env.H, 3*env.H+40); i++ {
+			env.Comp.Cands = append(env.Comp.Cands, wire.Cand{Value: fmt.Sprintf("cand%04d", i), Desc: "the description of candidate number " + fmt.Sprint(i) + " is a long one"})
+		}
+		env.StartRow = g.N(env.H/3 + 1) // room below the line for part of the list
+		typ("c")
+		if mode == "vi" {
+			sc.Script = append(sc.Script, tok("\t", "menu-complete"))
+		} else {
+			sc.Script = append(sc.Script, tok(Pick(g, []string{"\x1b?", "\t"}), "possible-completions"))
+		}
+		for i := 0; i < g.Range(1, 3); i++ {
+			sc.Script = append(sc.Script, tok(Pick(g, []string{"\x1b[Z", "\x1b[Z", "\t"}), "menu-key"))
+		}
 	case "isearch":
 		typ("q")
 		sc.Script = append(sc.Script, tok("\x12", "reverse-search-history"), tok("h", "isearch-char"))
@@ -327,6 +344,10 @@ func execC11(x *Ctx, sc *wire.Scenario) *wire.Result {
 		xx.Shape = "any"
 	}
 	ctx := fmt.Sprintf("after %s with buffer %q (shape %s): terminal cursor at (%d,%d), input occupies rows %d..%d; screen %q", how, line, xx.Shape, cr, cc, anchorRow, textLast, t.Dump())
+	if userPanic && (cc != 0 || (cr <= textLast && textLast < t.H-1)) {
+		// one defect, whichever coordinate shows it (with an empty prompt the column happens to be 0)
+		return violation(res, "TERMINAL", "C11.cursor-on-fresh-row", "cursor-left-inside-the-input-area:panic", "cursor not on a fresh row "+ctx)
+	}
 	if cc != 0 {
 		return violation(res, "TERMINAL", "C11.cursor-on-fresh-row", "cursor-col:"+cls+":"+xx.Shape, "cursor not in column 0 "+ctx)
 	}
@@ -336,6 +357,9 @@ func execC11(x *Ctx, sc *wire.Scenario) *wire.Result {
 	if !t.RowBlank(cr) {
 		return violation(res, "TERMINAL", "C11.cursor-on-fresh-row", "row-not-fresh:"+cls+":"+xx.Shape, "the cursor's row is not blank "+ctx)
 	}
+	// Not demanded: that nothing is left between the input and the cursor's row. With a cropped completion
+	// menu open at accept-line the unchanged tree leaves rows of it there (and an interrupt echoes ^C, which
+	// may wrap onto a row of its own); the statement asks for a fresh row below the input, which this is.
 	if sc.Index%300 == 0 {
 		res.Sample = sample(sc, map[string]any{"exit": xx.Exit, "shape": xx.Shape, "returns": out.Returns, "screen": t.Dump()})
 	}
